@@ -29,6 +29,15 @@ void hex_print_bstr(FILE *f, const bstr *b) {
     hex_print(f, bstr_ptr(b), bstr_len(b));
 }
 
+/* work counter for C08: edges executed in the library objects when they are built with -fsanitize-coverage=trace-pc-guard
+ * (build kind "cov"; in every other build these two functions are never called) */
+unsigned long g_work;
+void __sanitizer_cov_trace_pc_guard_init(uint32_t *start, uint32_t *stop) {
+    static uint32_t n;
+    for (uint32_t *x = start; x < stop; x++) if (!*x) *x = ++n;
+}
+void __sanitizer_cov_trace_pc_guard(uint32_t *guard) { (void) guard; g_work++; }
+
 int main(int argc, char **argv) {
     char *line = NULL;
     size_t cap = 0;
@@ -57,6 +66,7 @@ int main(int argc, char **argv) {
             else if (!strcmp(tok[0], "fn")) ok = op_fn(nt - 1, tok + 1);
             else if (!strcmp(tok[0], "urlenc")) ok = op_urlenc(nt - 1, tok + 1);
             else if (!strcmp(tok[0], "mpart")) ok = op_mpart(nt - 1, tok + 1);
+            else if (!strcmp(tok[0], "work") && nt == 1) { printf("%lu", g_work); g_work = 0; ok = 1; }
             else if (!strcmp(tok[0], "conn")) ok = op_conn(0, nt - 1, tok + 1);
             else if (!strncmp(tok[0], "conn@", 5)) ok = op_conn(atoi(tok[0] + 5), nt - 1, tok + 1);
         }
